@@ -517,3 +517,167 @@ def oracle_c05(rep, scn, replay, obs, root, report):
         changed = (o.get("_fs_changed") or []) + ["<dest>/" + x for x in (o.get("_aux_changed") or []) if not x.startswith("patterns")]
         if changed:
             report("refused-command-wrote", i, "nothing written", changed[:10], f"{name} wrote to the file system although the history is damaged")
+
+
+# ------------------------------------------------------------------------------------------------ C06
+
+import re as _re
+
+NAME_RE = _re.compile(r"^(\d{4,})_(.*)_(\d{4})-(\d{2})-(\d{2})_(\d{2})(\d{2})(\d{2})Z\.mhl$", _re.S)
+
+
+def oracle_c06(rep, scn, replay, obs, root, report):
+    import calendar
+    import time
+
+    for i, (st, o) in enumerate(zip(scn["steps"], obs)):
+        if st["op"] != "create" or "_hist_before" not in o:
+            continue
+        before, after = o["_hist_before"], o["_hist_after"]
+        for h, b in before.items():
+            a = after.get(h)
+            if a is None:
+                report("history-vanished", i, h, sorted(after), f"history {h or '.'} disappeared")
+                continue
+            for name, c4 in b["files"].items():
+                if a["files"].get(name) != c4:
+                    report("existing-manifest-changed", i, c4, a["files"].get(name), f"{h or '.'}: existing manifest {name} was changed or removed by create")
+        for h, a in after.items():
+            b = before.get(h, {"files": {}, "chain": []})
+            new = sorted(set(a["files"]) - set(b["files"]))
+            _count(rep, f"c06.new_manifests.{len(new)}")
+            if a["other"]:
+                report("stray-file-in-ascmhl", i, [], a["other"], f"{h or '.'}: unexpected files left in the ascmhl folder")
+            if len(new) > 1:
+                report("more-than-one-new-manifest", i, 1, new, f"{h or '.'}: create added {len(new)} manifests to one history")
+            old_chain = b["chain"] if isinstance(b["chain"], list) else []
+            if a["chain"] == "unparsable" or a["chain"] is None:
+                report("chain-unreadable", i, "a chain file", a["chain"], f"{h or '.'}: no readable chain file after create")
+                continue
+            if not new:
+                if a["chain"] != old_chain and h in before:
+                    report("chain-changed-without-generation", i, old_chain, a["chain"], f"{h or '.'}: chain changed although no manifest was added")
+                continue
+            name = new[0]
+            m = NAME_RE.match(name)
+            nums_before = [int(NAME_RE.match(f).group(1)) for f in b["files"] if NAME_RE.match(f)]
+            want_no = (max(nums_before) if nums_before else 0) + 1
+            folder = os.path.basename(os.path.join(root, h).rstrip("/")) if h else os.path.basename(root)
+            if not m:
+                report("manifest-name", i, "NNNN_<folder>_<UTC time>Z.mhl", name, "new manifest does not follow the naming convention")
+                continue
+            if int(m.group(1)) != want_no:
+                report("generation-number", i, want_no, int(m.group(1)), f"{h or '.'}: new manifest is not numbered one above the highest existing generation")
+            if len(m.group(1)) != max(4, len(str(want_no))):
+                report("generation-number-width", i, "%04d" % want_no, m.group(1), "generation number not zero-padded to four digits")
+            if m.group(2) != folder:
+                report("manifest-name-folder", i, folder, m.group(2), "manifest name does not carry the folder name")
+            stamp = calendar.timegm(tuple(int(x) for x in m.groups()[2:8]) + (0, 0, 0))
+            if abs(stamp - time.time()) > 120:
+                report("manifest-name-time", i, "UTC now", name, "manifest name does not carry the current UTC time")
+            if a["chain"][: len(old_chain)] != old_chain:
+                report("chain-old-entries-changed", i, old_chain, a["chain"], f"{h or '.'}: earlier chain entries were changed, dropped or reordered")
+            tail = a["chain"][len(old_chain):]
+            want = [[str(want_no), name, a["files"][name]]]
+            if tail != want:
+                report("chain-new-entry", i, want, tail, f"{h or '.'}: the chain does not end with exactly one new entry matching the new manifest's number, name and c4")
+            seqs = [int(e[0]) for e in a["chain"]]
+            if seqs != list(range(1, len(seqs) + 1)) and seqs == sorted(set(seqs)) and len(b["files"]) == len(old_chain):
+                report("chain-gaps", i, list(range(1, len(seqs) + 1)), seqs, f"{h or '.'}: chain sequence numbers have gaps")
+    # reloading: info lists generations 1..n ascending
+    for i, (st, o) in enumerate(zip(scn["steps"], obs)):
+        if st["op"] == "info" and o["outcome"] == ["exit", 0]:
+            cur, per = None, {}
+            for x in o.get("info") or []:
+                if x[0] == "H":
+                    cur = x[1]
+                    per[cur] = []
+                elif x[0] == "G" and cur is not None:
+                    per[cur].append(x[1])
+            for h, gs in per.items():
+                if gs != list(range(1, len(gs) + 1)):
+                    report("reload-not-ascending", i, list(range(1, len(gs) + 1)), gs, f"info lists the generations of {h or '.'} not as 1..n ascending")
+
+
+# ------------------------------------------------------------------------------------------------ C14
+
+READERS = ("verify", "verifydh", "verifypl", "diff", "info", "infosf", "hash", "xsdcheck")
+
+
+def normalise_audit(events):
+    """audit events of a create run -> the model's operation alphabet: [0, hist] mkdir ascmhl, [1, hist] manifest in
+    place, [2, hist] chain in place; anything else is returned as ['?', event]"""
+    ops, tmp_open = [], set()
+    for ev in events:
+        kind, paths = ev[0], ev[1:]
+        p = paths[0] if paths else ""
+        parts = p.split("/")
+        # paths are relative to the scenario base: <root name>/...
+        if kind == "os.mkdir" and parts[-1] == "ascmhl":
+            ops.append([0, "/".join(parts[1:-1])])
+        elif kind == "open-w" and p.endswith(".tmp") and "ascmhl" in parts:
+            tmp_open.add(p)
+        elif kind == "os.rename" and len(paths) == 2 and paths[0] == paths[1] + ".tmp" and paths[0] in tmp_open and "ascmhl" in parts:
+            dst = paths[1].split("/")
+            hist = "/".join(dst[1:-2])
+            if dst[-1] == "ascmhl_chain.xml":
+                ops.append([2, hist])
+            elif dst[-1].endswith(".mhl"):
+                ops.append([1, hist])
+            else:
+                ops.append(["?", list(ev)])
+        else:
+            ops.append(["?", list(ev)])
+    return ops
+
+
+def oracle_c14(rep, scn, replay, obs, root, report, model_obs=None):
+    for i, (st, o) in enumerate(zip(scn["steps"], obs)):
+        if st["op"] not in world.COMMANDS or "_fs_changed" not in o:
+            continue
+        op = st["op"]
+        name = op + ("-sf" if st.get("sf") else "")
+        changed, aux, audit = o["_fs_changed"], [x for x in o["_aux_changed"] if not x.startswith("patterns")], o.get("_audit") or []
+        _count(rep, f"c14.{name}.exit{o['outcome'][1] if o['outcome'][0] == 'exit' else 'abort'}")
+        if op in READERS:
+            if changed or aux:
+                report("reader-changed-fs", i, "nothing created, modified or deleted", (changed + aux)[:10], f"{name} changed the file system")
+            wr = [e for e in audit]
+            if wr:
+                report("reader-write-event", i, "no write-type audit event", wr[:5], f"{name} performed a write-type operation")
+        elif op == "flatten":
+            if changed:
+                report("flatten-touched-source", i, "source untouched", changed[:10], "flatten changed the source folder")
+            dest = os.path.basename(st.get("dest_path", "")) if st.get("dest_path") else None
+            bad = [x for x in aux if not x.startswith("flat")]
+            if bad:
+                report("flatten-outside-destination", i, "writes below the destination only", bad[:10], "flatten wrote outside its destination folder")
+        elif op == "create":
+            before, after = o["_hist_before"], o["_hist_after"]
+            allowed = set()
+            for h, a in after.items():
+                b = before.get(h)
+                pre = (h + "/") if h else ""
+                new = set(a["files"]) - set(b["files"] if b else [])
+                for f in new:
+                    allowed.add(pre + "ascmhl/" + f)
+                if new or b is None:
+                    allowed.add(pre + "ascmhl/ascmhl_chain.xml")
+                    allowed.add(pre + "ascmhl")          # the folder's own mtime changes when an entry is added
+                if b is None:
+                    allowed.add(h if h else ".")          # ... and so does the parent's when ascmhl/ is first created
+            bad = [x for x in changed if x not in allowed and x != "."] + ([] if ("." in allowed or "." not in changed) else ["."])
+            bad = [x for x in bad if not (x == "" )]
+            if bad:
+                report("create-touched-other", i, sorted(allowed), bad[:10], "create changed something other than new manifests / chain files / new ascmhl folders of the histories in scope")
+            if aux:
+                report("create-wrote-elsewhere", i, [], aux[:10], "create wrote outside the tree")
+            ops = normalise_audit(audit)
+            stray = [x for x in ops if x[0] == "?"]
+            if stray:
+                report("create-stray-operation", i, "mkdir ascmhl / manifest / chain only", stray[:5], "create performed an undocumented write-type operation")
+            if model_obs is not None and model_obs[i] is not None and "ops" in model_obs[i] and not stray:
+                want = [[k, p] for k, p in model_obs[i]["ops"]]
+                got = [[k, p] for k, p in ops]
+                if want != got:
+                    report("create-op-sequence", i, want, got, "the sequence of file-system writes differs from the model's (order: child manifest, child chain, parent manifest, parent chain; mkdir only for new ascmhl folders)")
